@@ -132,7 +132,7 @@ func checkNames(p *Program, r *Report) {
 			if types.TypeString(sig.Results().At(1).Type(), nil) != "error" {
 				continue
 			}
-			if b, ok := sig.Params().At(sig.Params().Len()-1).Type().Underlying().(*types.Basic); !ok || b.Kind() != types.String {
+			if b, ok := sig.Params().At(sig.Params().Len() - 1).Type().Underlying().(*types.Basic); !ok || b.Kind() != types.String {
 				continue
 			}
 			if len(callsDirect(f, "method:(Table).SeekRef")) > 0 {
